@@ -63,7 +63,7 @@ def literal(rnd, value):
         d += 1
     s = str(v.numerator).rjust(d + 1, "0")
     text = s[:-d] + "." + s[-d:]
-    if rnd.random() < 0.3:
+    if rnd.random() < 0.3 and d < 18:
         text += "0"
     return text, value
 
@@ -71,7 +71,11 @@ def literal(rnd, value):
 def scales(rnd, n):
     """n distinct-or-tied positive terminating decimal scales (not 1 unless deliberately tied with the reference unit)"""
     pool = [F(1, 1000), F(1, 100), F(1, 10), F(1, 4), F(1, 2), F(3, 4), F(5, 4), F(2), F(12), F(60), F(100), F(254, 10000), F(3048, 10000),
-            F(1000), F(1024), F(3600), F(86400), F(1, 8), F(45359237, 100000000), F(1, 1000000), F(1000000), F(125, 100), F(16), F(1, 16)]
+            F(1000), F(1024), F(3600), F(86400), F(1, 8), F(45359237, 100000000), F(1, 1000000), F(1000000), F(125, 100), F(16), F(1, 16),
+            # tiny scales closer together than f64::EPSILON (distinct units must keep distinct scales)
+            F(1, 10 ** 18), F(24, 10 ** 18), F(1, 10 ** 15),
+            # literals with more significant digits than an f64 round trip preserves (they must reach the decimal back-end unchanged)
+            F(159154943091895336, 10 ** 18), F(277777777777777778, 10 ** 18), F(3333333333333333333, 10 ** 18), F(1570796326794896619, 10 ** 18)]
     out = []
     for _ in range(n):
         r = rnd.random()
@@ -110,6 +114,8 @@ def make_definition(rnd, name, kind):
     used_id, used_sym = set(), set()
     if kind == "single":
         i = ident(rnd, used_id)
+        if "_" not in i and rnd.random() < 0.7:
+            i = i + "_" + rnd.choice(WORDS)
         s = symbol(rnd, used_sym)
         doc = rnd.random() < 0.5
         attrs = ['#[unit(%s, "%s"%s)]' % (i, s, ', "the only unit"' if doc else "")]
@@ -118,8 +124,13 @@ def make_definition(rnd, name, kind):
     if kind == "noref":
         n = rnd.randint(2, 6)
         us, attrs = [], []
-        for _ in range(n):
-            i = ident(rnd, used_id)
+        # identifiers whose name order (ASCII, '_' shown as space) differs from the order of their UpperCamel variants
+        w0 = rnd.choice(WORDS).capitalize()
+        forced = ["%s_per_%s" % (w0, rnd.choice(WORDS).capitalize()), "%s_Total" % w0, rnd.choice(WORDS)]
+        for f_ in forced:
+            used_id.add("".join(x.capitalize() for x in f_.split("_")).lower())
+        for k_ in range(n + len(forced)):
+            i = forced[k_ - n] if k_ >= n else ident(rnd, used_id)
             s = symbol(rnd, used_sym, allow_dup=rnd.random() < 0.1)
             us.append(UnitSpec(i, s, None, None))
             attrs.append('#[unit(%s, "%s"%s)]' % (i, s, ', "doc of %s"' % i if rnd.random() < 0.4 else ""))
@@ -132,7 +143,12 @@ def make_definition(rnd, name, kind):
     ref_attr = '#[ref_unit(%s, "%s"%s%s)]' % (ref_i, ref_s, ", NONE" if si else "", ', "reference unit"' if rnd.random() < 0.5 else "")
     us = [UnitSpec(ref_i, ref_s, "NONE" if si else None, F(1))]
     attrs = [ref_attr]
-    for sc in scales(rnd, n):
+    scs = scales(rnd, n)
+    if name.endswith("4") and len(scs) >= 2:
+        scs[0], scs[1] = F(1, 10 ** 18), F(24, 10 ** 18)
+    if name.endswith("0") or name in ("SynProd",):
+        scs[rnd.randrange(len(scs))] = rnd.choice([F(159154943091895336, 10 ** 18), F(277777777777777778, 10 ** 18), F(1570796326794896619, 10 ** 18)])
+    for sc in scs:
         i = ident(rnd, used_id)
         s = symbol(rnd, used_sym, allow_dup=rnd.random() < 0.08)
         text, val = literal(rnd, sc)
